@@ -54,11 +54,21 @@ def main():
             fired = []
             lines = []
             try:
-                for p in props:
-                    r = sh(f"{LINT} check --property {p} --tier quick --no-evidence")
-                    if r.returncode != 0:
-                        fired.append(p)
-                        lines += [f"  {p}: {l[:400]}" for l in r.stdout.splitlines() if "] " in l and not l.startswith("property=") and not l.startswith("KNOWN-FINDING")][:6]
+                # one process for all properties (`checkall` shares the loaded program); the verdict
+                # per property is the same as the registered per-property command's
+                r = sh(f"{LINT} checkall --repo {REPO}")
+                cur = []
+                for l in r.stdout.splitlines():
+                    if l.startswith("KNOWN-FINDING") or l.startswith("NOTE"):
+                        continue
+                    if l.startswith("property="):
+                        p = l.split()[0].split("=", 1)[1]
+                        if "violations=0 undecided=0" not in l and p in props:
+                            fired.append(p)
+                            lines += [f"  {p}: {x[:400]}" for x in cur][:6]
+                        cur = []
+                    elif "] " in l:
+                        cur.append(l)
             finally:
                 sh(f"git -C {REPO} checkout -- . && git -C {REPO} clean -fdq")
             summary = ""
